@@ -234,3 +234,154 @@ package raft
 //@   ensures  one_voter_delta_other: result1 == nil && change.command != AddVoter && change.command != AddNonvoter && change.command != DemoteVoter && change.command != RemoveServer && change.command != Promote ==>
 //@              forall id ServerID :: isVoter(result0, id) == isVoter(current, id)
 //@   ensures  no_alias: result1 == nil ==> isfresh(result0.Servers)
+
+// ---------------------------------------------------------------------------
+// C01 / C05 / C07: quorum size
+
+//@ spec func voterCount(cfg Configuration) int = count(k, len(cfg.Servers), cfg.Servers[k].Suffrage == Voter)
+
+//@ func (r *Raft) quorumSize
+//@   requires nonnil: r != nil
+//@   modifies nothing
+//@   ensures  value: result == voterCount(r.configurations.latest)/2 + 1
+//@   ensures  strict_majority: 2*result > voterCount(r.configurations.latest)
+//@   ensures  at_most_all: voterCount(r.configurations.latest) >= 1 ==> result <= voterCount(r.configurations.latest)
+//@   loop 1 invariant prefix: voters == count(k, #i, r.configurations.latest.Servers[k].Suffrage == Voter)
+
+//@ lemma quorum_intersection(n int, a int, b int)
+//@   requires n >= 1 && a >= n/2 + 1 && b >= n/2 + 1 && a <= n && b <= n
+//@   ensures  overlap: a + b > n
+
+//@ lemma quorum_intersection_single_change(n int, m int)
+//@   requires n >= 1 && m >= 1 && (m == n || m == n + 1 || m == n - 1)
+//@   ensures  overlap: (n/2 + 1) + (m/2 + 1) > max(n, m)
+
+//@ lemma median_is_majority(n int)
+//@   requires n >= 1
+//@   ensures  majority: 2*(n - (n-1)/2) > n
+
+// ---------------------------------------------------------------------------
+// C11: compaction arithmetic
+
+//@ func (r *Raft) compactLogsWithTrailing
+//@   requires nonnil: r != nil && r.logs != nil
+//@   modifies r.logs.has, r.logs.ent, r.logs.first, r.logs.last
+//@   ensures  deletes_le_snapshot: forall i uint64 :: old(r.logs.has[i]) && !r.logs.has[i] ==> i <= snapIdx
+//@   ensures  keeps_trailing: forall i uint64 :: old(r.logs.has[i]) && !r.logs.has[i] ==> i + trailingLogs <= lastLogIdx
+//@   ensures  deletes_from_first: forall i uint64 :: old(r.logs.has[i]) && !r.logs.has[i] ==> i >= old(r.logs.first)
+//@   ensures  kept_unchanged: forall i uint64 :: r.logs.has[i] ==> old(r.logs.has[i]) && r.logs.ent[i] == old(r.logs.ent[i])
+//@   ensures  short_log_untouched: lastLogIdx <= trailingLogs ==> r.logs.has == old(r.logs.has) && r.logs.ent == old(r.logs.ent)
+//@   ensures  error_untouched: result != nil ==> r.logs.has == old(r.logs.has) && r.logs.ent == old(r.logs.ent)
+//@   ensures  one_prefix: result == nil && (exists i uint64 :: old(r.logs.has[i]) && !r.logs.has[i]) ==>
+//@              forall i uint64 :: r.logs.has[i] == (old(r.logs.has[i]) && !(old(r.logs.first) <= i && i <= min(snapIdx, lastLogIdx - trailingLogs)))
+
+// ---------------------------------------------------------------------------
+// StableStore / Transport: ghost models and assumed contracts (trusted base)
+// Keys and values are identified by their byte contents (content(b)).
+
+//@ model StableStore { has map[string]bool; val map[string]string; nilval map[string]bool; hasu map[string]bool; u64 map[string]uint64 }
+
+//@ interface StableStore.Set(key, val)
+//@   modifies this.has, this.val, this.nilval
+//@   ensures  ok:  result == nil ==> this.has[content(key)] && this.val[content(key)] == content(val) &&
+//@                   (forall k string :: k != content(key) ==> this.has[k] == old(this.has[k]) && this.val[k] == old(this.val[k]))
+//@   ensures  err: result != nil ==> this.has == old(this.has) && this.val == old(this.val) && this.nilval == old(this.nilval)
+//@   ensures  othernil: forall k string :: k != content(key) ==> this.nilval[k] == old(this.nilval[k])
+
+//@ interface StableStore.Get(key)
+//@   modifies nothing
+//@   ensures  found:  result1 == nil && this.has[content(key)] ==> content(result0) == this.val[content(key)] && (result0 == nil) == this.nilval[content(key)]
+//@   ensures  absent: !this.has[content(key)] ==> result0 == nil && (result1 == nil || errmsg(result1) == "not found")
+//@   ensures  notfound_means_absent: result1 != nil && errmsg(result1) == "not found" ==> !this.has[content(key)]
+
+//@ interface StableStore.SetUint64(key, val)
+//@   modifies this.hasu, this.u64
+//@   ensures  ok:  result == nil ==> this.hasu[content(key)] && this.u64[content(key)] == val &&
+//@                   (forall k string :: k != content(key) ==> this.hasu[k] == old(this.hasu[k]) && this.u64[k] == old(this.u64[k]))
+//@   ensures  err: result != nil ==> this.hasu == old(this.hasu) && this.u64 == old(this.u64)
+
+//@ interface StableStore.GetUint64(key)
+//@   modifies nothing
+//@   ensures  found:  result1 == nil && this.hasu[content(key)] ==> result0 == this.u64[content(key)]
+//@   ensures  absent: !this.hasu[content(key)] ==> result0 == 0 && (result1 == nil || errmsg(result1) == "not found")
+//@   ensures  notfound_means_absent: result1 != nil && errmsg(result1) == "not found" ==> !this.hasu[content(key)]
+
+//@ axiom stable_keys: content(keyCurrentTerm) != content(keyLastVoteTerm) && content(keyCurrentTerm) != content(keyLastVoteCand) && content(keyLastVoteTerm) != content(keyLastVoteCand)
+
+//@ func (r *Raft) observe
+//@   trusted notifies registered observers over their own channels; reads but never writes raft state
+//@   modifies nothing
+
+//@ func encodePeers
+//@   trusted serialisation for protocol version < 2 peers; pure
+//@   modifies nothing
+
+//@ uf decodePeerOf(string) ServerAddress
+//@ uf encodePeerOf(ServerID, ServerAddress) string
+
+//@ interface Transport.DecodePeer(buf)
+//@   modifies nothing
+//@   ensures  pure: result == decodePeerOf(content(buf))
+
+//@ interface Transport.EncodePeer(id, addr)
+//@   modifies nothing
+//@   ensures  pure: content(result) == encodePeerOf(id, addr)
+
+// ---------------------------------------------------------------------------
+// C06 / C01 / C03: votes and terms
+
+//@ spec func curTermDurable(r *Raft) uint64 = ite(r.stable.hasu[content(keyCurrentTerm)], r.stable.u64[content(keyCurrentTerm)], 0)
+//@ spec func voteTerm(r *Raft) uint64 = ite(r.stable.hasu[content(keyLastVoteTerm)], r.stable.u64[content(keyLastVoteTerm)], 0)
+//@ spec func voteCandSet(r *Raft) bool = r.stable.has[content(keyLastVoteCand)] && !r.stable.nilval[content(keyLastVoteCand)]
+//@ spec func voteCand(r *Raft) string = r.stable.val[content(keyLastVoteCand)]
+//@ spec func voteResp(rpc RPC) *RequestVoteResponse = cast(lastsent(rpc.RespChan).Response, *RequestVoteResponse)
+//@ spec func candOf(req *RequestVoteRequest) string = ite(len(req.Addr) > 0, content(req.Addr), content(req.Candidate))
+//@ spec func lastEntryIndex(r *Raft) uint64 = ite(r.lastLogIndex >= r.lastSnapshotIndex, r.lastLogIndex, r.lastSnapshotIndex)
+//@ spec func lastEntryTerm(r *Raft) uint64 = ite(r.lastLogIndex >= r.lastSnapshotIndex, r.lastLogTerm, r.lastSnapshotTerm)
+//@ spec func hasVoteSpec(cfg Configuration, id ServerID) bool =
+//@   exists i int :: 0 <= i && i < len(cfg.Servers) && cfg.Servers[i].ID == id && cfg.Servers[i].Suffrage == Voter &&
+//@     (forall k int :: 0 <= k && k < i ==> cfg.Servers[k].ID != id)
+
+//@ func (r *Raft) persistVote
+//@   requires nonnil: r != nil && r.stable != nil
+//@   requires vote_le_current: voteTerm(r) <= curTermDurable(r)
+//@   requires own_term: term == curTermDurable(r)
+//@   modifies r.stable.has, r.stable.val, r.stable.nilval, r.stable.hasu, r.stable.u64
+//@   ensures  ok: result == nil ==> voteTerm(r) == term && voteCand(r) == content(candidate)
+//@   observe old_cur_term: curTermDurable(r)
+//@   observe old_vote_term: voteTerm(r)
+//@   observe old_cand: ite(voteCandSet(r), voteCand(r), "")
+//@   observe new_cand: content(candidate)
+//@   ensures  current_term_untouched: curTermDurable(r) == old(curTermDurable(r))
+//@   ensures  vote_term_bounded: voteTerm(r) == old(voteTerm(r)) || voteTerm(r) == term
+//@   crash_invariant record_atomic: voteTerm(r) >= curTermDurable(r) && voteCandSet(r) ==>
+//@       (voteTerm(r) == old(voteTerm(r)) && voteCand(r) == old(voteCand(r)) && old(voteCandSet(r))) ||
+//@       (voteTerm(r) == term && voteCand(r) == content(candidate))
+
+//@ func (r *Raft) setCurrentTerm
+//@   requires nonnil: r != nil && r.stable != nil
+//@   modifies r.stable.hasu, r.stable.u64, r.currentTerm
+//@   ensures  persisted: curTermDurable(r) == t && r.currentTerm == t
+//@   ensures  votes_untouched: voteTerm(r) == old(voteTerm(r))
+//@   ensures  panics_before_memory_update: r.currentTerm == old(r.currentTerm) on_panic
+
+//@ func (r *Raft) requestVote
+//@   requires nonnil: r != nil && req != nil && r.stable != nil && r.trans != nil && r.logger != nil && rpc.RespChan != nil
+//@   requires term_inv: r.currentTerm == curTermDurable(r)
+//@   requires vote_le_current: voteTerm(r) <= curTermDurable(r)
+//@   ensures  vote_le_current: voteTerm(r) <= curTermDurable(r)
+//@   ensures  responded: sent(rpc.RespChan) == old(sent(rpc.RespChan)) + 1 && typeis(lastsent(rpc.RespChan).Response, *RequestVoteResponse)
+//@   ensures  term_inv: r.currentTerm == curTermDurable(r)
+//@   ensures  term_monotone: r.currentTerm >= old(r.currentTerm)
+//@   ensures  one_vote_per_term: voteResp(rpc).Granted ==> voteTerm(r) == req.Term && voteCand(r) == candOf(req)
+//@   ensures  no_second_candidate: voteResp(rpc).Granted && old(voteTerm(r)) == req.Term && old(voteCandSet(r)) ==> candOf(req) == old(voteCand(r))
+//@   ensures  grant_in_current_term: voteResp(rpc).Granted ==> r.currentTerm == req.Term
+//@   ensures  grant_requires_uptodate_log: voteResp(rpc).Granted && !(old(voteTerm(r)) == req.Term && old(voteCandSet(r))) ==>
+//@              !(lastEntryTerm(r) > req.LastLogTerm) && !(lastEntryTerm(r) == req.LastLogTerm && lastEntryIndex(r) > req.LastLogIndex)
+//@   ensures  grant_requires_voter: voteResp(rpc).Granted && len(req.ID) > 0 && len(r.configurations.latest.Servers) > 0 ==>
+//@              hasVoteSpec(r.configurations.latest, ServerID(content(req.ID)))
+//@   ensures  stale_term_ignored: req.Term < old(r.currentTerm) ==> !voteResp(rpc).Granted && r.currentTerm == old(r.currentTerm) &&
+//@              r.state == old(r.state) && voteTerm(r) == old(voteTerm(r)) && r.stable.val == old(r.stable.val) && r.stable.has == old(r.stable.has)
+//@   ensures  term_change_resets_role: r.currentTerm != old(r.currentTerm) ==> r.state == Follower
+//@   ensures  refuse_while_leader_known: old(r.leaderAddr) != "" && old(r.leaderAddr) != decodePeerOf(candOf(req)) && !req.LeadershipTransfer ==> !voteResp(rpc).Granted
+//@   ensures  log_untouched: r.lastLogIndex == old(r.lastLogIndex) && r.lastLogTerm == old(r.lastLogTerm) && r.commitIndex == old(r.commitIndex) && r.lastApplied == old(r.lastApplied)
